@@ -147,6 +147,7 @@ func flagSources(v ssa.Value, seen map[ssa.Value]bool) []ssa.Value {
 }
 
 func checkC05(p *Program, r *Reporter) {
+	unitsRuleByName(p, r, "LiveMPD")
 	r.Explanation = "Static analysis of structural necessary conditions of C05: (a) no operation on the data path from the newest listed segment to the stored publishTime, and none in the comparison that decides 'after the stop time', rounds a quantity to whole seconds (rounding is accepted only on values scaled to milliseconds or finer); " +
 		"(b) every successful return of the MPD generator is decided by the after-stop test, the after-stop side passes through the call that makes the MPD static, and the duration it is given depends on both the stop time and the start time; the after-stop test depends on the stop time and on the request time; " +
 		"(c) in the SegmentTimeline generator the duration of the newest listed segment recorded for publishTime is updated wherever a timeline entry with a new duration is created. " +
